@@ -243,7 +243,7 @@ def memo_ties(ctx, entries, memo_hits):
 
 def correspondence(ctx, proofs_ok=True):
     entries = c08_memo.scan()
-    contents, refs, ok_ids, bad_ids = build_pool(ctx, ctx.n(12, 36))
+    contents, refs, ok_ids, bad_ids = build_pool(ctx, 12 if ctx.quick else 36)
     memo_hits = {}
     sessions = []
     for d in corpus_sessions():   # corpus sessions carry their own contents: give them ids after the pool
@@ -254,8 +254,10 @@ def correspondence(ctx, proofs_ok=True):
         sessions.append(dict(d, ops=ops, part='corpus'))
     rnd = ctx.rng
     seeds = ['0', '1'] + [str(rnd.randrange(2, 2 ** 32)) for _ in range(ctx.n(2, 6))]
-    n = ctx.n(48, 800)
-    sessions += [S.gen_session(rnd, ok_ids, bad_ids, rnd.randint(*ctx.n((12, 40), (20, 60))), seeds) for _ in range(n)]
+    boost = ctx.quick and getattr(ctx, 'boost', False)   # modelled source changed: twice the quick volume (x4 would exceed the quick budget)
+    n = 96 if boost else (48 if ctx.quick else 800)
+    lo, hi = (12, 40) if ctx.quick else (20, 60)   # not through ctx.n: it scales numbers
+    sessions += [S.gen_session(rnd, ok_ids, bad_ids, rnd.randint(lo, hi), seeds) for _ in range(n)]
     batch = 240
     for lo in range(0, len(sessions), batch):
         _, mh = evaluate(ctx, 'histories', sessions[lo:lo + batch], contents, refs, tag=f'h{lo // batch}')
